@@ -1,3 +1,5 @@
+//go:build verif
+
 package main
 
 // C15: the shipped front-end tables and the real front-end Parse against spec/gocc2.ebnf.
